@@ -65,6 +65,7 @@ struct Scn {
     std::vector<std::string> later_stages; // mode 0: stages deeper than the expected one (must never be what is delivered)
     std::string label_extra;
     bool has2 = false, second_zlib = false; std::string expect2; // a second, pipelined response on the same connection with another coding (the decompressor must be set up afresh)
+    int pre = 0;                         // body-less exchanges in front (HEAD / 304 / 204 answered with a Content-Encoding field): the decompressor they set up must not leak into, or out of, the next response
     std::string label;                   // class label for evidence, e.g. "gzip,deflate_raw/chunked"
     std::vector<size_t> cuts;
 };
@@ -74,21 +75,22 @@ static std::string scn_text(const Scn &s) {
     t += "label " + s.label + "\nreq " + H(s.rq) + "\nres " + H(s.rs) + "\nexpect " + (s.mode == 2 ? std::string("-") : H(s.expect)) + "\n";
     for (auto &l : s.later_stages) t += "later " + H(l) + "\n";
     if (s.has2) t += "expect2 " + H(s.expect2) + " " + std::to_string(s.second_zlib) + "\n";
+    if (s.pre) t += "pre " + std::to_string(s.pre) + "\n";
     t += "cuts"; for (size_t c : s.cuts) t += " " + std::to_string(c); t += "\n";
     const std::string &w = s.dir ? s.rq : s.rs; t += "# head \"" + vc::esc(w.substr(0, s.body_at), 400) + "\" body " + std::to_string(s.body_len) + " bytes, expected delivery " + std::to_string(s.expect.size()) + " bytes\n";
     return t;
 }
 
-struct Obs { int dir; bool keep; std::string got; unsigned long long total = 0; long limit; std::string bound_fail; int body_tx = 0; std::string got2; int body_tx2 = 0; };
+struct Obs { int first = 1; int dir; bool keep; std::string got; unsigned long long total = 0; long limit; std::string bound_fail; int body_tx = 0; std::string got2; int body_tx2 = 0; size_t pre_body = 0; };
 static std::pair<std::string, std::string> run_scn(const Scn &s) {
     vdrv::Config c; c.personality = s.pers; c.req_decomp = s.dir; c.res_decomp = 1; c.layers = s.layer_limit; c.lzma_layers = s.lzma_layers; c.bomb = s.bomb;
     vdrv::Plan p; vdrv::Options o; o.dump = false; o.keep_body = false; o.keep_data = s.mode != 2; o.max_keep = 1 << 16; o.logs = true;
     vdrv::Session ss(c, p, o);
-    Obs ob; ob.dir = s.dir; ob.keep = s.mode != 2; ob.limit = s.bomb < 0 ? 1048576 : s.bomb; ss.user = &ob;
+    Obs ob; ob.dir = s.dir; ob.keep = s.mode != 2; ob.limit = s.bomb < 0 ? 1048576 : s.bomb; ob.first = 1 + s.pre; ss.user = &ob;
     ss.observer = [](vdrv::Session *se, const vdrv::Event &e, htp_tx_t *tx) {
         Obs *b = (Obs *)se->user; int hook = b->dir ? vdrv::H_REQ_BODY : vdrv::H_RES_BODY;
         if (e.hook != hook || e.null_data || !tx) return;
-        if (e.tx != 1) { if (e.tx == 2 && b->keep) b->got2 += e.data; return; } // transactions are numbered in order of their first callback: the coded body belongs to the first, the pipelined one to the second
+        if (e.tx != b->first) { if (e.tx == b->first + 1 && b->keep) b->got2 += e.data; if (e.tx < b->first) b->pre_body += e.len; return; } // transactions are numbered in order of their first callback: the coded body belongs to the first, the pipelined one to the second
         b->total += e.len; if (b->keep) b->got += e.data;
         unsigned long long comp = (unsigned long long)(b->dir ? tx->request_message_len : tx->response_message_len);
         unsigned long long bound = std::max<unsigned long long>((unsigned long long)b->limit, 2048ull * comp) + 8192;
@@ -111,6 +113,7 @@ static std::pair<std::string, std::string> run_scn(const Scn &s) {
     if (A.mode == "c05" || A.mode == "c06") { std::string pre = A.mode == "c05" ? "C05:" : "C06:"; for (auto &v : r.violations) if (v.rfind(pre, 0) == 0) return {v, "stream monitor: " + v + " (coded body scenario " + s.label + ")"}; return {"", ""}; }
     if (!ob.bound_fail.empty()) return {"bomb_bound_exceeded:" + s.label, ob.bound_fail};
     if (s.mode == 2) return {"", ""};
+    if (s.pre && ob.pre_body) return {"body_delivered_for_bodyless_response:" + s.label, std::to_string(ob.pre_body) + " body bytes were delivered for a response to HEAD / a 204 / a 304 that has no body"};
     bool cut_in_second = false; for (size_t cpos : s.cuts) if (cpos > s.body_at + s.body_len) cut_in_second = true; std::string attr2 = (t3 && s.second_zlib && cut_in_second) ? "+T3" : "";
     if (s.has2 && ob.got == s.expect && ob.got2 != s.expect2) { size_t d = 0; while (d < ob.got2.size() && d < s.expect2.size() && ob.got2[d] == s.expect2[d]) d++; return {"fidelity_second_response:" + s.label + attr2, "the second (pipelined) response delivered " + std::to_string(ob.got2.size()) + " bytes, expected " + std::to_string(s.expect2.size()) + "; first difference at offset " + std::to_string(d)}; }
     if (ob.got != s.expect) {
@@ -177,6 +180,8 @@ static Scn gen_fidelity() {
     static const int LL[] = {-2, -2, -2, 1, 2, 3, 0}; s.layer_limit = s.dir == 0 ? LL[rcx::range(0, 6)] : -2;
     int L = s.layer_limit == -2 ? 2 : s.layer_limit; int applied = nl; if (L != 0 && applied > L) applied = L;
     s.expect = stages[applied]; for (int j = applied + 1; j <= nl; j++) s.later_stages.push_back(stages[j]);
+    // LZMA switched off (htp_config_set_lzma_layers(cfg, 0)): a body announced as "lzma" alone is not decoded, in either direction
+    if (nl == 1 && kinds[0] == K_LZMA && rcx::chance(1, 3)) { s.lzma_layers = 0; s.expect = stages[0]; s.later_stages.clear(); s.later_stages.push_back(stages[1]); s.label_extra = "_lzma_switched_off"; }
     int framing = rcx::range(0, s.dir == 0 ? 2 : 1);
     // a small bomb limit must not cut an ordinary body short: the limit only applies together with the 2048 ratio
     if (rcx::chance(1, 4)) { static const long BL[] = {1000, 8192, 20000}; long bl = BL[rcx::range(0, 2)]; bool ordinary = true; for (int j = 0; j < nl; j++) if (stages[j].size() * 1500 < stages[nl].size()) ordinary = false; if (ordinary) s.bomb = bl; }
@@ -186,6 +191,12 @@ static Scn gen_fidelity() {
     if (s.dir == 0 && framing != 2 && rcx::chance(1, 4)) { // pipelined second exchange with its own coding
         int k2 = rcx::range(-1, 2); std::string p2; int n2 = rcx::range(1, 200); for (int i = 0; i < n2; i++) p2 += (char)('k' + rcx::range(0, 9)); std::string b2 = k2 < 0 ? p2 : encode(k2, p2);
         s.rq += "GET /second HTTP/1.1\r\nHost: h.example\r\n\r\n"; s.rs += "HTTP/1.1 200 OK\r\n" + (k2 < 0 ? std::string() : "Content-Encoding: " + token_of(k2) + "\r\n") + "Content-Length: " + std::to_string(b2.size()) + "\r\n\r\n" + b2; s.has2 = true; s.expect2 = p2; s.second_zlib = k2 == K_DEFLATE_ZLIB; }
+    if (s.dir == 0 && rcx::chance(1, 5)) { // one or two body-less exchanges in front whose responses announce a coding (there is no body to decode, and nothing to finalise the decompressor with)
+        int np = rcx::range(1, 2); std::string prq, prs;
+        for (int i = 0; i < np; i++) { static const char *CE[] = {"gzip", "deflate", "gzip, deflate", "deflate,gzip", "gzip, gzip", "x-gzip"}; std::string ce0 = CE[rcx::range(0, 5)]; int k = rcx::range(0, 2);
+            if (k == 0) { prq += "HEAD /pre HTTP/1.1\r\nHost: h.example\r\n\r\n"; prs += "HTTP/1.1 200 OK\r\nContent-Encoding: " + ce0 + "\r\nContent-Length: " + std::to_string(rcx::range(1, 5000)) + "\r\n\r\n"; }
+            else { prq += "GET /pre HTTP/1.1\r\nHost: h.example\r\n\r\n"; prs += std::string(k == 1 ? "HTTP/1.1 304 Not Modified" : "HTTP/1.1 204 No Content") + "\r\nContent-Encoding: " + ce0 + "\r\n\r\n"; } }
+        s.rq = prq + s.rq; s.rs = prs + s.rs; s.body_at += prs.size(); s.pre = np; }
     s.label = ""; for (int j = 0; j < nl; j++) { if (j) s.label += ","; s.label += KN[kinds[j]]; } s.label += s.dir ? "/request" : "/response";
     return s;
 }
@@ -251,7 +262,7 @@ static void campaign_fidelity() {
     rcx::run("decompression_fidelity", vc::mix(A.seed * 227 + A.shard), cases, 60, [&]() -> std::optional<rcx::Fail> {
         Scn s = gen_fidelity(); bool counting = !rcx::shrinking();
         if (auto f = all_chunkings(s, counting)) return f;
-        if (counting) { g_stats.cls("fidelity_scenarios"); g_stats.cls("coding_" + s.label); if (s.expect.size() > 8192) g_stats.cls("payload_over_8KiB"); if (s.multi_piece_framing) g_stats.cls("chunked_transfer_framing"); if (s.has2) g_stats.cls("second_pipelined_response_with_own_coding"); if (!s.later_stages.empty()) g_stats.cls("layer_limit_binds"); g_stats.sample_sparse(scn_text(s).substr(0, 1500), g_stats.evaluations); }
+        if (counting) { g_stats.cls("fidelity_scenarios"); g_stats.cls("coding_" + s.label); if (s.expect.size() > 8192) g_stats.cls("payload_over_8KiB"); if (s.multi_piece_framing) g_stats.cls("chunked_transfer_framing"); if (s.pre) g_stats.cls("bodyless_coded_exchange_in_front"); if (s.has2) g_stats.cls("second_pipelined_response_with_own_coding"); if (!s.later_stages.empty()) g_stats.cls("layer_limit_binds"); g_stats.sample_sparse(scn_text(s).substr(0, 1500), g_stats.evaluations); }
         return {};
     });
 }
@@ -284,6 +295,7 @@ static int replay(const std::string &path) {
         size_t e = f.find('\n', p); if (e == std::string::npos) e = f.size(); std::string l = f.substr(p, e - p); p = e + 1;
         if (l.rfind("c07 ", 0) == 0) { int mp = 0; sscanf(l.c_str() + 4, "%d %d %d %d %d %ld %zu %zu %d", &s.pers, &s.dir, &s.mode, &s.layer_limit, &s.lzma_layers, &s.bomb, &s.body_at, &s.body_len, &mp); s.multi_piece_framing = mp; }
         else if (l.rfind("label ", 0) == 0) s.label = l.substr(6); else if (l.rfind("req ", 0) == 0) s.rq = U(l.substr(4)); else if (l.rfind("res ", 0) == 0) s.rs = U(l.substr(4)); else if (l.rfind("expect ", 0) == 0) s.expect = U(l.substr(7)); else if (l.rfind("later ", 0) == 0) s.later_stages.push_back(U(l.substr(6))); else if (l.rfind("expect2 ", 0) == 0) { s.has2 = true; std::string r = l.substr(8); size_t sp = r.find(' '); s.expect2 = U(r.substr(0, sp)); if (sp != std::string::npos) s.second_zlib = atoi(r.c_str() + sp + 1) != 0; }
+        else if (l.rfind("pre ", 0) == 0) s.pre = atoi(l.c_str() + 4);
         else if (l.rfind("cuts", 0) == 0) { const char *c = l.c_str() + 4; char *end; for (;;) { long n = strtol(c, &end, 10); if (end == c) break; s.cuts.push_back((size_t)n); c = end; } }
     }
     auto r = run_scn(s);
